@@ -866,3 +866,50 @@ def forward_taint(body, seeds, carries=lambda ty: True, sinks=("push", "insert",
                                 break
                             cur, hops = nxt[0], hops + 1
     return tainted
+
+
+def bool_consistent_path(body, start, goals, env=None, blocked_edges=(), blocked=()):
+    """Block path start -> goal along which the known values of bool locals stay consistent: `_x = const true/false` and
+    copies of known locals are tracked, a switch on a known bool only follows the matching edge.  `env`: {local: bool} known
+    at the start.  `blocked_edges`: CFG edges (a, b) that may not be used."""
+    goals, blocked, blocked_edges = set(goals), set(blocked), set(blocked_edges)
+    init = frozenset((env or {}).items())
+    prev = {(start, init): None}
+    dq = deque([(start, init)])
+    while dq:
+        b, e = dq.popleft()
+        if b in goals:
+            out, cur = [], (b, e)
+            while cur is not None:
+                out.append(cur[0])
+                cur = prev[cur]
+            return out[::-1]
+        known = dict(e)
+        blk = body.blocks[b]
+        for st in blk["stmts"]:
+            if st["k"] != "assign" or st["place"]["p"]:
+                continue
+            d = st["place"]["l"]
+            rv = st["rv"]
+            if rv["k"] == "use" and rv["op"]["k"] == "const" and body.locals[d]["ty"] == "bool" and rv["op"].get("val") in (0, 1):
+                known[d] = bool(rv["op"]["val"])
+            elif rv["k"] == "use" and rv["op"]["k"] in ("copy", "move") and not rv["op"]["place"]["p"] and rv["op"]["place"]["l"] in known:
+                known[d] = known[rv["op"]["place"]["l"]]
+            else:
+                known.pop(d, None)
+        t = blk.get("term")
+        succs = body.succs(b)
+        if t and t["k"] == "switch" and t["discr"]["k"] in ("copy", "move") and not t["discr"]["place"]["p"] and t["discr"]["place"]["l"] in known:
+            v = 1 if known[t["discr"]["place"]["l"]] else 0
+            hit = [x for val, x in t["targets"] if val == v]
+            succs = hit[:1] if hit else [t["otherwise"]]
+        if t and t["k"] == "call" and not t["dest"]["p"]:
+            known.pop(t["dest"]["l"], None)
+        e2 = frozenset(known.items())
+        for s in succs:
+            if s in blocked or (b, s) in blocked_edges or body.blocks[s]["cleanup"]:
+                continue
+            if (s, e2) not in prev:
+                prev[(s, e2)] = (b, e)
+                dq.append((s, e2))
+    return None
